@@ -1,0 +1,27 @@
+//go:build verif
+
+// Contracts for the verif build tag (read by /verif/govc; comment-only).
+package codec
+
+//@ func ReadInt
+//@ property C10 C09
+//@ requires offset + 4 <= len(b) && len(b) <= 4294967295
+//@ ensures result == be32(b, offset)
+//@ modifies nothing
+
+//@ func V2.ReadHeaderWithValidation
+//@ property C10 C09
+//@ requires len(buf) <= 4294967295 && v.HeaderSize == 12
+//@ ensures err == nil ==> payloadSize > 0 && startFileOffset + 12 + payloadSize <= len(buf)
+//@ ensures err == nil ==> payloadSize == be32(buf, startFileOffset) && previousCrc == be32(buf, startFileOffset+4) && payloadCrc == be32(buf, startFileOffset+8)
+//@ ensures err == nil ==> payloadCrc == crcValue(crc32Update(previousCrc, buf[startFileOffset+12 : startFileOffset+12+payloadSize]))
+//@ ensures err != nil ==> errIs(err, ErrOffsetOutOfBounds) || errIs(err, ErrEmptyPayload) || errIs(err, ErrDataCorrupted)
+//@ modifies nothing
+
+//@ func V1.ReadHeaderWithValidation
+//@ property C10 C09
+//@ requires len(buf) <= 4294967295 && v.HeaderSize == 4
+//@ ensures err == nil ==> payloadSize > 0 && startFileOffset + 4 + payloadSize <= len(buf)
+//@ ensures err == nil ==> payloadSize == be32(buf, startFileOffset)
+//@ ensures err != nil ==> errIs(err, ErrOffsetOutOfBounds) || errIs(err, ErrEmptyPayload)
+//@ modifies nothing
